@@ -3,11 +3,13 @@
 # (used while other jobs need /repo untouched; final confirmation uses tools/seed_eval.sh on /repo itself)
 WT=$1; P=$(readlink -f "$2"); shift; shift
 git -C $WT checkout -- . ; git -C $WT apply "$P" || { echo "patch does not apply"; exit 2; }
-cd /verif
+V=${VERIF_COPY:-/verif}
+[ "$V" != /verif ] && rsync -a --delete --exclude .git /verif/ $V/
+cd $V
 for id in "$@"; do
   out=$(PYTHONPATH=$WT XPLIQUE_REPO=$WT VERIF_SEED=${VERIF_SEED:-0} timeout 1500 /venv/bin/python harness/run.py $id quick 2>&1); rc=$?
   echo "== $id rc=$rc"; echo "$out" | grep -E "VIOLATION|KNOWN-FINDING|INFRA|^\[$id\]" | cut -c1-250
   [ -f replays/$id-${VERIF_SEED:-0}-quick.json ] && [ $rc = 1 ] && python3 -c "
 import json; r=json.load(open('replays/$id-${VERIF_SEED:-0}-quick.json')); print('   replay:', r.get('clause'), r.get('signature'), str(r.get('detail'))[:200])"
 done
-git -C $WT checkout -- . ; python3 /verif/harness/gen_arith.py > /dev/null
+git -C $WT checkout -- . ; python3 $V/harness/gen_arith.py > /dev/null
